@@ -147,6 +147,10 @@ pub fn run(p: &Params) -> Report {
         let mut w = World::random(case_seed);
         w.profile.dependent_permille = 700;
         w.profile.hostile = 12;
+        if case % 4 == 1 {
+            // sets with several valid ERG mints (their demonstrated speeds are reduced to a maximum)
+            w.profile.doscmint = 40;
+        }
         w.profile.max_batch = if case % 4 == 0 { if p.thorough { 40 } else { 16 } } else { 5 };
         let mut r = Rng::new(case_seed ^ 3);
         let blocks = 2 + r.usize(4);
